@@ -24,7 +24,7 @@ META = {
             'clone-based OCP vs directly declared OCP: two real transcriptions, equal rows/objective (z3); the template\'s declared content is unchanged.  distinct by (shape,label)',
     'functions': ['rockit/stage.py:stage/clone/__deepcopy__/_transcribe_recurse/_placeholders_transcribe_recurse/iter_stages', 'rockit/ocp.py:_transcribe',
                   'rockit/direct_method.py:DirectMethod.transcribe (parent level constraints/objective/variables), eval_top', 'rockit/sampling_method.py:eval (master substitution)'],
-    'bounds': '2-3 stages, mixed MS/SS/DC and grids, N<=3, M<=2, free and fixed stage horizons, integrals with explicit time, per-stage parameters, parent variable + objective, 1-2 clones',
+    'bounds': '2-3 stages, mixed MS/SS/DC and grids, N<=3, M<=2, free and fixed stage horizons, integrals with explicit time, per-stage parameters, parent variable + objective, 1-2 clones; one stage nested in another stage; continuity declared on the parent or on the later stage itself',
     'outside': 'nested sub-stages deeper than one level; sol(stage) numeric read-back (solver output); IEEE rounding',
     'assumptions': ['reals for floats', 'named quantities of each stage are obtained through stage.sample/value'],
 }
@@ -91,7 +91,9 @@ def build(desc, poly=False):
             for nm, val in (sd.get('pvals') or {}).items():
                 st.set_value(b.psym[nm], float(val))          # value given on the clone only
         else:
-            st = ocp.stage(t0=hv(sd['t0']), T=hv(sd['T']))
+            # 'nested_in': the stage is created ON an earlier stage (a grandchild of the Ocp) instead of on the Ocp itself
+            owner = master.stage_builts[sd['nested_in']].stage if sd.get('nested_in') is not None else ocp
+            st = owner.stage(t0=hv(sd['t0']), T=hv(sd['T']))
             b = declare(spec, sd['cfg'], poly=poly, ocp=ocp, stage=st)
             b.spec = spec
         if sd.get('post_der_scale') is not None:
@@ -100,10 +102,12 @@ def build(desc, poly=False):
         master.stage_builts.append(b)
     B = master.stage_builts
     for c in desc['coupling']:
-        if c[0] == 'cont':
+        if c[0] in ('cont', 'cont@stage'):
             i, j = c[1], c[2]
+            # 'cont@stage': the continuity condition is declared on the later STAGE (it mentions the end of its sibling only), not on the parent
+            where = B[j].stage if c[0] == 'cont@stage' else ocp
             for k in range(B[i].spec.nx):
-                ocp.subject_to(B[j].stage.at_t0(B[j].xel[k]) == B[i].stage.at_tf(B[i].xel[k]))
+                where.subject_to(B[j].stage.at_t0(B[j].xel[k]) == B[i].stage.at_tf(B[i].xel[k]))
         elif c[0] == 'time':
             i, j = c[1], c[2]
             ocp.subject_to(B[j].stage.t0 == B[i].stage.tf)
@@ -163,6 +167,14 @@ def instances(tier, seed):
             coupling = [('cont', i, i + 1) for i in range(len(stages) - 1)] + [('wge', 0)]
             add(kind='clone', desc=dict(stages=stages, coupling=coupling, parent=[('w2',)]))
             n += 1
+    # a stage created ON another stage (grandchild of the Ocp); the continuity condition declared on the later stage itself
+    for ci_ in (0, 1):
+        add(kind='direct', desc=dict(stages=[dict(spec=stage_model(ci_), cfg=cfgs[ci_], t0=hz[0][0], T=hz[0][1], clone_of=None),
+                                             dict(spec=stage_model(ci_ + 1), cfg=cfgs[(ci_ + 1) % len(cfgs)], t0=hz[2][0], T=hz[2][1], clone_of=None, nested_in=0)],
+                             coupling=[('cont', 0, 1), ('wge', 1)], parent=[('w2',), ('par',)]))
+        add(kind='direct', desc=dict(stages=[dict(spec=stage_model(ci_), cfg=cfgs[ci_], t0=hz[0][0], T=hz[0][1], clone_of=None),
+                                             dict(spec=stage_model(ci_ + 1), cfg=cfgs[(ci_ + 2) % len(cfgs)], t0=hz[2][0], T=hz[2][1], clone_of=None)],
+                             coupling=[('cont@stage', 0, 1), ('wge', 0)], parent=[('w2',)]))
     # a template whose constraints shift time-dependent expressions by whole intervals (the shifted expression refers to the template's time)
     from ..dsl import offset
     tpl_off = stage_model(0)
@@ -261,7 +273,7 @@ def ref_all(inst, master, d, mut=None):
     wv = o[0][0] if d != 'z' else inst.rdom.wrap(o[0][0])
     desc = master.desc
     for c in desc['coupling']:
-        if c[0] == 'cont':
+        if c[0] in ('cont', 'cont@stage'):
             i, j = c[1], c[2]
             if mut == 'cont_first_node':
                 for k in range(trs[i].spec.nx):
@@ -421,7 +433,7 @@ def run(item):
         else:
             ch.proved.append('parent parameter values (ground)')
     twins_ok = twins_bad = 0
-    if not mut and any(c[0] == 'cont' for c in desc['coupling']):
+    if not mut and any(c[0] in ('cont', 'cont@stage') for c in desc['coupling']):
         ch2 = Checker(inst, timeout_ms=5000)
         rt = {d: [a for a in ref_all(inst, master, d, 'cont_first_node')[0] if a[2].startswith('couple:cont')] for d in doms}
         _, un2, _ = ch2.match(rt, impa, far=False)
